@@ -362,6 +362,10 @@ class StepRun:
             self.count_mixed(f"{st['kind']} step, assignment", old_dt, new_dt, new)
             return ["put", 0, v, None, new, False, {"dtype": dt_name(p)}], new
         d = delta_of(st["target"], old)
+        if any(is_big(x) for x in (d if rows else [d])) and p is not torch.float64:
+            # the template's target was drawn before BIG entered the state: the step itself is big, its tensor must be float64
+            p = new_dt = torch.float64
+            bigs = [False] * len(bigs)
         if rows:
             d = [x + (BIG if g and isinstance(x, int) else 0) for x, g in zip(d, bigs)]
         elif bigs[0] and isinstance(d, int):
